@@ -113,8 +113,16 @@ def r1(ctx, osc, wk):
   # worker unpack order: position 0 -> joins, position 1 -> leaves
   un = [st for st in ast.walk(wk.node) if isinstance(st, ast.Assign) and isinstance(st.targets[0], ast.Tuple) and U(st.value) in ('work',)]
   ok = len(un) == 1 and len(un[0].targets[0].elts) == 2
+  idx_ = {}
+  if not un:
+    # the item read field by field: joins = work[0]; leaves = work[1]
+    for st in ast.walk(wk.node):
+      if isinstance(st, ast.Assign) and len(st.targets) == 1 and isinstance(st.targets[0], ast.Name) and isinstance(st.value, ast.Subscript) and U(st.value.value) == 'work' \
+         and U(st.value.slice) in ('0', '1'):
+        idx_.setdefault(U(st.value.slice), []).append(st.targets[0].id)
+    ok = sorted(idx_) == ['0', '1'] and all(len(v) == 1 for v in idx_.values())
   if ok:
-    j, l = [U(e) for e in un[0].targets[0].elts]
+    j, l = [U(e) for e in un[0].targets[0].elts] if un else (idx_['0'][0], idx_['1'][0])
     txt = U(wk.node)
     joins_from = [c for c in ast.walk(wk.node) if isinstance(c, ast.Call) and call_attr(c) == '_zk_nodes_to_members']
     ok = len(joins_from) == 1 and U(joins_from[0].args[0]) == j
